@@ -366,7 +366,7 @@ def check_prog(prog, builder, seed=0, twin=False, oracle_fn=None, label="", extr
             return out
         out["cells"] += len(conj)
         out["defined"] += len(c.defined)
-        goal = z3.And(*conj) if conj else z3.BoolVal(True)
+        goal = z3.And(*(conj + c.must_prove())) if (conj or c.must_prove()) else z3.BoolVal(True)
         if not z3.is_true(z3.simplify(goal)):
             out["nontrivial"] = True
         hyps = c.hyps()
